@@ -34,6 +34,9 @@ struct Shared<B: Backend> {
     pke_secret: Key<B, PkeSecret>,
     pke_public: Key<B, PkePublic>,
     secrets: Secrets,
+    /// the key objects every thread uses *directly* (no per-operation clone)
+    kl_pair: KeyPair<B>,
+    kp_pair: KeyPair<B>,
     // sequential oracle, computed before any thread starts
     msgs: Vec<Vec<u8>>,
     nonces: Vec<Vec<u8>>,
@@ -98,6 +101,8 @@ fn build_shared<B: Backend>(seed: u64) -> Shared<B> {
     Shared {
         forged_local: valid_local.iter().map(forge).collect(),
         forged_public: valid_public.iter().map(forge).collect(),
+        kl_pair: KeyPair::<B>::Local(local.clone()),
+        kp_pair: KeyPair::<B>::Public(secret.clone(), public.clone()),
         local_text: key_text(&local),
         local_id: local.id().to_string(),
         secret_text: key_text(&secret),
@@ -123,9 +128,9 @@ fn build_shared<B: Backend>(seed: u64) -> Shared<B> {
 
 /// one operation against the shared keys; returns (ok-as-expected, note, produced token for peers)
 fn do_op<B: Backend>(sh: &Shared<B>, op: &'static str, i: usize, peer: Option<(String, usize, bool)>) -> (bool, String, Option<(String, usize, bool)>) {
-    // KeyPair borrows clones of the shared keys: cloning and dropping is part of the workload
-    let kl = || KeyPair::<B>::Local(sh.local.clone());
-    let kp = || KeyPair::<B>::Public(sh.secret.clone(), sh.public.clone());
+    // all threads operate on the very same key objects; cloning and dropping is a separate operation
+    let kl = || &sh.kl_pair;
+    let kp = || &sh.kp_pair;
     let m = &sh.msgs[i % 16];
     match op {
         "sign" => match kp().seal(m, b"f", b"") {
@@ -291,6 +296,84 @@ fn concurrent_backend<B: Backend>(opts: &Opts, rep: &mut Report) {
     }
 }
 
+/// Concurrent *first use* of a freshly constructed key object: any lazily initialised state inside
+/// a key (caches, FFI contexts) is initialised while several threads are inside it.
+fn first_use_backend<B: Backend>(opts: &Opts, rep: &mut Report) {
+    use paseto_core::version::{Public, Secret};
+    if opts.shard != 0 {
+        return;
+    }
+    let mut rng = Rng::derive(opts.seed, "c17.first-use", B::VER as u64 + if B::FAMILY == Family::Ffi { 10 } else { 0 });
+    let rounds = if B::VER == 1 { opts.size(30, 200) } else { opts.size(400, 4000) };
+    let threads = 8usize;
+    let mut bad = 0u64;
+    for round in 0..rounds {
+        let sk_raw = B::gen_secret(&mut rng);
+        // reference objects (used sequentially only) and the expected values
+        let ref_sk = secret_key::<B>(&sk_raw);
+        let ref_pk = ref_sk.public_key();
+        let pk_raw = key_bytes(&ref_pk);
+        let want_pk_text = key_text(&ref_pk);
+        let want_sid = ref_sk.id().to_string();
+        let want_pid = ref_pk.id().to_string();
+        let ref_pair = KeyPair::<B>::Public(ref_sk.clone(), ref_pk.clone());
+        let msg = rng.bytes(24);
+        let valid = ref_pair.seal(&msg, b"f", b"").expect("sign");
+        // brand-new objects nobody has used yet
+        let fresh = std::sync::Arc::new(KeyPair::<B>::Public(key_from_bytes::<B, Secret>(&sk_raw).expect("secret"), key_from_bytes::<B, Public>(&pk_raw).expect("public")));
+        let barrier = std::sync::Arc::new(Barrier::new(threads));
+        let results: Vec<Result<(bool, String), String>> = std::thread::scope(|sc| {
+            let hs: Vec<_> = (0..threads)
+                .map(|t| {
+                    let fresh = fresh.clone();
+                    let barrier = barrier.clone();
+                    let (msg, valid, want_pk_text, want_sid, want_pid) = (&msg, &valid, &want_pk_text, &want_sid, &want_pid);
+                    sc.spawn(move || {
+                        barrier.wait();
+                        guard(|| match t % 4 {
+                            0 => match fresh.seal(msg, b"f", b"") {
+                                Ok(tok) => (true, tok),
+                                Err(e) => (false, format!("sign failed: {}", err_kind(&e))),
+                            },
+                            1 => (fresh.open(valid, b"").map(|(c, _)| c == *msg).unwrap_or(false), "verify valid token".into()),
+                            2 => {
+                                let sk = fresh.secret_ref().unwrap();
+                                (key_text(&sk.public_key()) == *want_pk_text && sk.id().to_string() == *want_sid, "public_key()/id() of the fresh secret key".into())
+                            }
+                            _ => match &*fresh {
+                                KeyPair::Public(_, pk) => (pk.to_string() == *want_pk_text && pk.id().to_string() == *want_pid, "Display/id() of the fresh public key".into()),
+                                _ => unreachable!(),
+                            },
+                        })
+                    })
+                })
+                .collect();
+            hs.into_iter().map(|h| h.join().unwrap_or_else(|_| Err("thread panicked".into()))).collect()
+        });
+        for (t, r) in results.into_iter().enumerate() {
+            rep.case(&format!("{}.first-use", B::NAME), fnv_parts(&[B::NAME.as_bytes(), &(round as u64).to_le_bytes(), &[t as u8]]), true);
+            let ok = match &r {
+                // a token signed during the racy first use must verify under the sequential reference key
+                Ok((true, tok)) if t % 4 == 0 => ref_pair.open(tok, b"").map(|(c, _)| c == msg).unwrap_or(false),
+                Ok((ok, _)) => *ok,
+                Err(_) => false,
+            };
+            if !ok {
+                bad += 1;
+                let opname = ["sign", "verify", "secret.public_key/id", "public.display/id"][t % 4];
+                rep.violation(
+                    &format!("C17|{}|concurrent-first-use-differs-from-sequential-oracle", B::NAME),
+                    json!({"backend": B::NAME, "round": round, "thread": t, "operation": opname, "result": format!("{r:?}").chars().take(200).collect::<String>(), "secret_key": hx_short(&sk_raw)}),
+                );
+            }
+        }
+    }
+    rep.count_n(&format!("{}.first-use-rounds", B::NAME), rounds as u64);
+    rep.count_n("sum.first-use-rounds", rounds as u64);
+    let _ = bad;
+    rep.sample_class(&format!("{}.first-use", B::NAME), 1, || json!({"backend": B::NAME, "rounds": rounds, "threads_per_round": threads, "outcome": "every result of the concurrent first use equals the sequential oracle"}));
+}
+
 // ------------------------------------------------------------------------------------------------
 // Part C: failure histories
 fn probe<B: Backend>(local: &LocalKey<B>, secret: &SecretKey<B>, fixed: &Shared<B>) -> Vec<String> {
@@ -403,13 +486,14 @@ pub fn run(opts: &Opts) {
     let mut rep = Report::new("C17");
     if opts.wants_part("concurrent") {
         for_backends!(opts, concurrent_backend, opts, &mut rep);
+        for_backends!(opts, first_use_backend, opts, &mut rep);
     }
     if opts.wants_part("histories") {
         for_backends!(opts, histories_backend, opts, &mut rep);
     }
     rep.set(
         "rule",
-        json!("Part A: per backend one shared key set (local, secret, public, PKE pair), T in {2,4,8,16} threads released by a barrier, each running a seeded mix of 16 operation kinds (sign, verify valid/forged, encrypt, decrypt valid/forged, fixed-nonce seal, PIE wrap/unwrap, PKE seal/unseal, clone+drop, id, expose, public_key, verify a token produced by another thread); every operation is logged with start/end ticks of one global atomic; after join each result is checked against the sequentially precomputed oracle and the number of operation pairs of different threads whose intervals overlap is reported per run (a run without overlap is inconclusive). Part C: random histories of 5..50 failing and succeeding calls on one key; after every step probe(K) (exposed bytes, ids, fixed-nonce seal output, decrypt/verify of fixed tokens, sign+verify, unwrap) must equal probe(fresh copy parsed from K's serialisation). distinct = distinct (backend, thread count, thread, seq) events / distinct histories"),
+        json!("Part A: per backend one shared key set (local, secret, public, PKE pair), T in {2,4,8,16} threads released by a barrier, each running a seeded mix of 16 operation kinds (sign, verify valid/forged, encrypt, decrypt valid/forged, fixed-nonce seal, PIE wrap/unwrap, PKE seal/unseal, clone+drop, id, expose, public_key, verify a token produced by another thread); every operation is logged with start/end ticks of one global atomic; after join each result is checked against the sequentially precomputed oracle and the number of operation pairs of different threads whose intervals overlap is reported per run (a run without overlap is inconclusive). Part A2: hundreds of rounds in which 8 threads make the *first* use (sign, verify, public_key/id, Display) of a freshly constructed key object at the same moment, checked against sequentially used reference objects. Part C: random histories of 5..50 failing and succeeding calls on one key; after every step probe(K) (exposed bytes, ids, fixed-nonce seal output, decrypt/verify of fixed tokens, sign+verify, unwrap) must equal probe(fresh copy parsed from K's serialisation). distinct = distinct (backend, thread count, thread, seq) events / distinct histories"),
     );
     rep.finish(opts);
 }
